@@ -472,8 +472,15 @@ func checkSide(run *MixRun) {
 				}
 			}
 		}
+		// "per RPC": an RPC exists on the server side once the server has read its
+		// first envelope (every request these families send is well formed), whether
+		// or not the handler was then reached
+		reached := r.HInvoked == 1 || serverReadCall(run.Net, id)
+		if reached && r.HInvoked == 0 {
+			e.Note("side.server-reached-no-handler")
+		}
 		chk("client", nCli, center, cexit, true)
-		chk("server", nSrv, senter, sexit, r.HInvoked == 1)
+		chk("server", nSrv, senter, sexit, reached)
 		if r.HInvoked == 1 && nSrv > 0 {
 			// the handler observes the context after all transformations
 			want := ""
